@@ -342,6 +342,99 @@ def bad_payload_states_job(noise: bool) -> dict[str, Any]:
     return out
 
 
+def keepalive_states_job(noise: bool) -> dict[str, Any]:
+    """Dispatch while the keepalive machinery is busy: idle / ping outstanding / ping answered earlier.  Every known message is delivered
+    exactly once whatever the keepalive state; an undefined-type frame has no effect on it either (it is not a sign of life)."""
+    env.load()
+    from aioesphomeapi.core import MESSAGE_TYPE_TO_PROTO
+
+    K = 10.0
+    out: dict[str, Any] = {"evals": 0, "viol": []}
+    ping_id = msg_id("PingRequest")
+
+    def pings(w: ConnWorld) -> int:
+        return sum(1 for n in w.sent_names() if n == "PingRequest")
+
+    stimuli = (("ST",), ("UK",), ("UK", "ST"), ("PRESP", "ST"), ("ST", "ST"), ("UK", "UK"), ("TX", "PRESP"))
+    for state in ("idle", "ping-outstanding", "answered-then-idle", "second-ping-outstanding"):
+        for stim in stimuli:
+            for one_chunk in (False, True):
+                w = ConnWorld(noise=noise, keepalive=K)
+                try:
+                    if noise:
+                        w.connect_fully_split()
+                    else:
+                        w.connect_fully()
+                    t0 = w.loop.time()
+                    p = Probe()
+                    w.conn.add_message_callback(p, tuple(MESSAGE_TYPE_TO_PROTO.values()))
+                    exp_pings: list[float] = []
+                    if state != "idle":
+                        w.loop.advance_to(t0 + K)
+                        w.drain()
+                        exp_pings.append(round(t0 + K, 6))
+                    if state in ("answered-then-idle", "second-ping-outstanding"):
+                        w.io_chunk(w.sock, w.dframe(mk("PingResponse")))
+                        w.drain()
+                        w.loop.advance_to(t0 + 2 * K)  # a message arrived during this interval: no ping at this tick
+                        w.drain()
+                    if state == "second-ping-outstanding":
+                        w.loop.advance_to(t0 + 3 * K)
+                        w.drain()
+                        exp_pings.append(round(t0 + 3 * K, 6))
+                    del p.calls[:]
+                    now = w.loop.time()
+                    w.loop.advance_to(now + 1.0)
+                    frames = []
+                    exp = []
+                    for i, a in enumerate(stim):
+                        if a == "UK":
+                            frames.append(raw_frame(w, 9999, b"zz"))
+                            continue
+                        m = {"ST": lambda: mk("SensorStateResponse", key=40 + i, state=1.5), "PRESP": lambda: mk("PingResponse"),
+                             "TX": lambda: mk("TextSensorStateResponse", key=41 + i, state="t")}[a]()
+                        frames.append(w.dframe(m))
+                        exp.append((type(m).__name__, m.SerializeToString()))
+                    for chunk in ([b"".join(frames)] if one_chunk else frames):
+                        w.io_chunk(w.sock, chunk)
+                        w.drain()
+                    out["evals"] += 1
+                    key = f"keepalive:{'noise' if noise else 'plain'}:{state}:{'+'.join(stim)}:{'one-chunk' if one_chunk else 'separate'}"
+                    d = {"noise": noise, "state": state, "stimuli": list(stim), "one_chunk": one_chunk}
+                    got = [(type(m).__name__, m.SerializeToString()) for m in p.calls]
+                    if got != exp:
+                        out["viol"].append({"key": key, "clause": f"C12:delivery:keepalive state '{state}': device sent {list(stim)}, subscribers got "
+                                            f"{[g[0] for g in got]}, expected {[e[0] for e in exp]}", **d})
+                        continue
+                    # afterwards: what the keepalive machinery does must depend on the known messages only
+                    life = any(a != "UK" for a in stim)
+                    outstanding = state in ("ping-outstanding", "second-ping-outstanding")
+                    if not outstanding and not life and state == "idle":
+                        n0 = pings(w)
+                        w.run_timers(t0 + K + 1e-3)
+                        if pings(w) - n0 != 1:
+                            out["viol"].append({"key": key + ":effect", "clause": "C12:undefined-effect:only undefined-type frames arrived during the first "
+                                                f"keepalive interval, so a ping is due at its end; {pings(w) - n0} pings were written", **d})
+                    closed_at = None
+                    while closed_at is None:
+                        nt = w.loop.next_timer_at()
+                        if nt is None or nt > t0 + 12 * K:
+                            break
+                        w.loop.advance_to(max(nt, w.loop.time()))
+                        w.drain()
+                        if w.conn.connection_state.name == "CLOSED":
+                            closed_at = w.loop.time()
+                    if outstanding and not life:
+                        due = exp_pings[-1] + 4.5 * K
+                        if closed_at is None or abs(closed_at - due) > 1e-6:
+                            out["viol"].append({"key": key + ":effect", "clause": f"C12:undefined-effect:only undefined-type frames arrived after the ping at "
+                                                f"{exp_pings[-1] - t0:g}: the connection must be declared dead at {due - t0:g}, "
+                                                f"{'it is still open at ' + format(12 * K, 'g') if closed_at is None else 'it was at ' + format(closed_at - t0, 'g')}", **d})
+                finally:
+                    w.close()
+    return out
+
+
 def fresh_hist_job(args: tuple[int, int, int]) -> dict[str, Any]:
     """Short histories on a *fresh* connection each (the first registration of a type creates state a reused connection never shows again)."""
     env.load()
@@ -541,7 +634,8 @@ def run(tier: str, seed: int) -> Result:
         rc = pool.map_async(peer_job, jobs_c, chunksize=16)
         rc2 = pool.map_async(peer_connect_job, jobs_c2, chunksize=4)
         rc3 = pool.map_async(bad_payload_states_job, [False, True], chunksize=1)
-        outs_a, outs_b, outs_c = ra.get(), rb.get() + rb2.get(), rc.get() + rc2.get() + rc3.get()
+        rc4 = pool.map_async(keepalive_states_job, [False, True], chunksize=1)
+        outs_a, outs_b, outs_c = ra.get(), rb.get() + rb2.get(), rc.get() + rc2.get() + rc3.get() + rc4.get()
     # large varints (plaintext only: the Noise type field is 16 bit)
     big_evals = 0
     w, probe = connected(False)
@@ -620,6 +714,11 @@ def replay(rp: dict[str, Any]) -> bool:
             hw.w.close()
         print("->", v)
         return v is None
+    if "stimuli" in d:
+        o = keepalive_states_job(bool(d["noise"]))
+        bad = [v for v in o["viol"] if v["key"] == rp["key"]]
+        print("->", [v["clause"] for v in bad] or "holds")
+        return not bad
     if "seq" in d:
         o = peer_job((d["noise"], tuple(d["seq"]), d["one_chunk"]))
         print("->", o["viol"])
